@@ -23,6 +23,18 @@ type fakeCR struct {
 
 func (f *fakeCR) Reset(w io.Writer) { f.w = w; f.resets++ }
 
+// fakeCC is fakeC with an io.Closer: closing it flushes a final chunk, as deflate compressors do.
+type fakeCC struct {
+	fakeC
+	closed int
+}
+
+func (f *fakeCC) Close() error {
+	f.closed++
+	_, err := f.w.Write([]byte{1, 0, 0, 255, 255})
+	return err
+}
+
 // passDR is passD with the optional ReadResetter interface.
 type passDR struct{ passD }
 
@@ -97,14 +109,15 @@ func c18x(c *ctx) {
 	// ---------------- wsflate.Writer
 	couts := [][]byte{{}, {7}, {0, 0}, {255, 255}, {0, 0, 255}, {0, 255, 255}, {255}, tail, cat([]byte{9}, tail), {0, 0, 255, 255, 255}, cat([]byte{1, 2, 3, 4, 5, 6}, tail), {0, 0, 255, 255, 0, 0, 255}, cat(tail, tail), {5, 5, 5, 5, 5}}
 	whist := []string{"none", "flushed", "flushedclosed", "badtail", "desterr", "partial", "tailonly"}
-	for _, resetter := range []bool{false, true} {
+	for ri, resetter := range []bool{false, true, false} {
+		closer := ri == 2 // a compressor with Close() and without Reset(io.Writer)
 		for _, h := range whist {
 			for ci, cout := range couts {
 				for _, split := range []int{-1, len(cout) / 2, 1} {
 					if split > len(cout) {
 						continue
 					}
-					key := fmt.Sprintf("flatewriter/%v/%s/%d/%d", resetter, h, ci, split)
+					key := fmt.Sprintf("flatewriter/%v%v/%s/%d/%d", resetter, closer, h, ci, split)
 					if !vh.Only(key) {
 						continue
 					}
@@ -119,6 +132,12 @@ func c18x(c *ctx) {
 						return wsflate.NewWriter(dest, func(x io.Writer) wsflate.Compressor {
 							if resetter {
 								f := &fakeCR{}
+								f.w = x
+								cur = &f.fakeC
+								return f
+							}
+							if closer {
+								f := &fakeCC{}
 								f.w = x
 								cur = &f.fakeC
 								return f
